@@ -1,5 +1,709 @@
-From Coq Require Import List ZArith Bool Lia QArith.
+From Coq Require Import List ZArith Bool Lia QArith FinFun.
 From PLV Require Import Disc.SamplingModel.
+From PLV Require Disc.ShotsModel.
 Import ListNotations.
 Open Scope Z_scope.
-Lemma placeholder_true : True. Proof. exact I. Qed.
+
+(* ------------------------------------------------------------------ generic list / sum facts *)
+Lemma sumZ_app a b : sumZ (a ++ b) = sumZ a + sumZ b.
+Proof. induction a as [|x a IH]; simpl; [reflexivity | rewrite IH; lia]. Qed.
+
+Lemma sumZ_map_add {A} (f g : A -> Z) l :
+  sumZ (map (fun x => f x + g x) l) = sumZ (map f l) + sumZ (map g l).
+Proof. induction l as [|x l IH]; simpl; [reflexivity | rewrite IH; lia]. Qed.
+
+Lemma sumZ_map_zero {A} (l : list A) : sumZ (map (fun _ => 0) l) = 0.
+Proof. induction l; simpl; lia. Qed.
+
+Lemma sumZ_map_scale {A} (P : A -> bool) c l :
+  sumZ (map (fun x => if P x then c else 0) l) = c * sumZ (map (fun x => if P x then 1 else 0) l).
+Proof. induction l as [|x l IH]; simpl; [lia | rewrite IH; destruct (P x); lia]. Qed.
+
+Lemma sumZ_nonneg l : Forall (fun x => 0 <= x) l -> 0 <= sumZ l.
+Proof. induction 1; simpl; lia. Qed.
+
+Lemma eq_lb_eq a : forall b, eq_lb a b = true <-> a = b.
+Proof.
+  induction a as [|x a IH]; intros [|y b]; simpl; try (split; [discriminate | discriminate]); [tauto|].
+  rewrite andb_true_iff, IH, eqb_true_iff. split; [intros [-> ->]; reflexivity | intros H; inversion H; auto].
+Qed.
+
+Lemma eq_lz_eq a : forall b, eq_lz a b = true -> a = b.
+Proof.
+  induction a as [|x a IH]; intros [|y b]; simpl; try discriminate; [reflexivity|].
+  intros H. apply andb_prop in H as [H1 H2]. apply Z.eqb_eq in H1. apply IH in H2. congruence.
+Qed.
+
+(* ------------------------------------------------------------------ index <-> bitstring *)
+Lemma powers_S n : powers_of_two (S n) = 2 ^ Z.of_nat n :: powers_of_two n.
+Proof.
+  unfold powers_of_two. rewrite seq_S, map_app, rev_app_distr. cbn [map rev app plus].
+  rewrite Z.shiftl_1_l. reflexivity.
+Qed.
+
+Lemma powers_length n : length (powers_of_two n) = n.
+Proof. unfold powers_of_two. now rewrite rev_length, map_length, seq_length. Qed.
+
+Lemma land_pow2 k j : 0 <= j -> (0 <? Z.land k (2 ^ j)) = Z.testbit k j.
+Proof.
+  intros Hj. destruct (Z.testbit k j) eqn:E.
+  - assert (H : Z.land k (2 ^ j) = 2 ^ j).
+    { apply Z.bits_inj'. intros m Hm. rewrite Z.land_spec, Z.pow2_bits_eqb by lia.
+      destruct (Z.eqb_spec j m) as [->|]; [rewrite E; reflexivity | apply andb_false_r]. }
+    rewrite H. apply Z.ltb_lt. apply Z.pow_pos_nonneg; lia.
+  - assert (H : Z.land k (2 ^ j) = 0).
+    { apply Z.bits_inj'. intros m Hm. rewrite Z.land_spec, Z.pow2_bits_eqb, Z.bits_0 by lia.
+      destruct (Z.eqb_spec j m) as [->|]; [rewrite E; reflexivity | apply andb_false_r]. }
+    rewrite H. reflexivity.
+Qed.
+
+Lemma bits_S n k : bits_of_index (S n) k = Z.testbit k (Z.of_nat n) :: bits_of_index n k.
+Proof. unfold bits_of_index. rewrite powers_S. cbn [map]. rewrite land_pow2 by lia. reflexivity. Qed.
+
+Lemma bits_length n k : length (bits_of_index n k) = n.
+Proof. unfold bits_of_index. now rewrite map_length, powers_length. Qed.
+
+Lemma index_cons b bs : index_of_bits (b :: bs) = b2z b * 2 ^ Z.of_nat (length bs) + index_of_bits bs.
+Proof. unfold index_of_bits. cbn [length]. rewrite powers_S. reflexivity. Qed.
+
+Lemma b2z_Zb2z b : b2z b = Z.b2z b.
+Proof. destruct b; reflexivity. Qed.
+
+Lemma pow2_pos n : 0 < 2 ^ Z.of_nat n.
+Proof. apply Z.pow_pos_nonneg; lia. Qed.
+
+Lemma index_bits_mod n : forall k, index_of_bits (bits_of_index n k) = k mod 2 ^ Z.of_nat n.
+Proof.
+  induction n as [|n IH]; intros k.
+  - cbn. now rewrite Z.mod_1_r.
+  - rewrite bits_S, index_cons, bits_length, IH, Nat2Z.inj_succ, Z.pow_succ_r by lia.
+    rewrite b2z_Zb2z, Z.testbit_spec' by lia. pose proof (pow2_pos n).
+    rewrite (Z.mul_comm 2), Z.rem_mul_r by lia. lia.
+Qed.
+
+Lemma index_of_bits_of_index n k : 0 <= k < 2 ^ Z.of_nat n -> index_of_bits (bits_of_index n k) = k.
+Proof. intros H. rewrite index_bits_mod. now apply Z.mod_small. Qed.
+
+Lemma index_range bs : 0 <= index_of_bits bs < 2 ^ Z.of_nat (length bs).
+Proof.
+  induction bs as [|b bs IH]; [cbn; lia|].
+  rewrite index_cons. cbn [length]. rewrite Nat2Z.inj_succ, Z.pow_succ_r by lia.
+  pose proof (pow2_pos (length bs)). destruct b; cbn [b2z]; lia.
+Qed.
+
+Lemma bits_ext n : forall k k', (forall j, 0 <= j < Z.of_nat n -> Z.testbit k j = Z.testbit k' j) ->
+  bits_of_index n k = bits_of_index n k'.
+Proof.
+  induction n as [|n IH]; intros k k' H; [reflexivity|].
+  rewrite !bits_S. f_equal; [apply H; lia | apply IH; intros j Hj; apply H; lia].
+Qed.
+
+Lemma bits_of_index_of_bits bs : bits_of_index (length bs) (index_of_bits bs) = bs.
+Proof.
+  induction bs as [|b bs IH]; [reflexivity|].
+  cbn [length]. rewrite bits_S, index_cons. pose proof (index_range bs) as R. pose proof (pow2_pos (length bs)) as P.
+  set (L := Z.of_nat (length bs)) in *. set (r := index_of_bits bs) in *. f_equal.
+  - assert (E : Z.b2z (Z.testbit (b2z b * 2 ^ L + r) L) = Z.b2z b).
+    { rewrite Z.testbit_spec' by lia. rewrite Z.div_add_l, Z.div_small by lia.
+      rewrite Z.add_0_r. destruct b; reflexivity. }
+    destruct (Z.testbit (b2z b * 2 ^ L + r) L), b; cbn in E; congruence.
+  - rewrite <- IH at 2. apply bits_ext. intros j Hj. fold L in Hj.
+    rewrite <- (Z.mod_pow2_bits_low (b2z b * 2 ^ L + r) L j) by lia.
+    rewrite Z.add_comm, Z_mod_plus_full, Z.mod_small by lia. reflexivity.
+Qed.
+
+Lemma bits_big_endian n : forall k j, (j < n)%nat ->
+  nth j (bits_of_index n k) false = Z.testbit k (Z.of_nat (n - 1 - j)).
+Proof.
+  induction n as [|n IH]; intros k j Hj; [lia|].
+  rewrite bits_S. destruct j as [|j]; cbn [nth].
+  - f_equal. lia.
+  - rewrite IH by lia. f_equal. lia.
+Qed.
+
+Lemma bits_eq_iff m bs j : length bs = m -> 0 <= j < 2 ^ Z.of_nat m ->
+  eq_lb bs (bits_of_index m j) = (j =? index_of_bits bs).
+Proof.
+  intros L Hj. destruct (Z.eqb_spec j (index_of_bits bs)) as [->|N].
+  - apply eq_lb_eq. subst m. symmetry. apply bits_of_index_of_bits.
+  - destruct (eq_lb bs (bits_of_index m j)) eqn:E; [|reflexivity].
+    apply eq_lb_eq in E. subst bs. rewrite index_of_bits_of_index in N by assumption. congruence.
+Qed.
+
+(* ------------------------------------------------------------------ basis_states *)
+Lemma pow2_nat m : Z.of_nat (2 ^ m) = 2 ^ Z.of_nat m.
+Proof. rewrite Nat2Z.inj_pow. reflexivity. Qed.
+
+Lemma basis_states_in m j : In j (basis_states m) <-> 0 <= j < 2 ^ Z.of_nat m.
+Proof.
+  unfold basis_states. rewrite in_map_iff. split.
+  - intros (i & <- & Hi). apply in_seq in Hi. rewrite <- (pow2_nat m). lia.
+  - intros H. exists (Z.to_nat j). rewrite <- (pow2_nat m) in H. split; [lia|]. apply in_seq. lia.
+Qed.
+
+Lemma basis_states_length m : length (basis_states m) = (2 ^ m)%nat.
+Proof. unfold basis_states. now rewrite map_length, seq_length. Qed.
+
+Lemma indicator_seq f : forall N s,
+  sumZ (map (fun j => if j =? f then 1 else 0) (map Z.of_nat (seq s N))) =
+  if (Z.of_nat s <=? f) && (f <? Z.of_nat (s + N)) then 1 else 0.
+Proof.
+  induction N as [|N IH]; intros s.
+  - cbn. destruct (Z.leb_spec (Z.of_nat s) f), (Z.ltb_spec f (Z.of_nat (s + 0))); cbn; lia.
+  - cbn [seq map sumZ fold_right]. fold (sumZ (map (fun j => if j =? f then 1 else 0) (map Z.of_nat (seq (S s) N)))).
+    rewrite IH.
+    destruct (Z.eqb_spec (Z.of_nat s) f), (Z.leb_spec (Z.of_nat (S s)) f), (Z.ltb_spec f (Z.of_nat (S s + N))),
+      (Z.leb_spec (Z.of_nat s) f), (Z.ltb_spec f (Z.of_nat (s + S N))); cbn; lia.
+Qed.
+
+Lemma indicator_basis m f : 0 <= f < 2 ^ Z.of_nat m ->
+  sumZ (map (fun j => if j =? f then 1 else 0) (basis_states m)) = 1.
+Proof.
+  intros H. unfold basis_states. rewrite indicator_seq. rewrite <- (pow2_nat m) in H.
+  destruct (Z.leb_spec (Z.of_nat 0) f), (Z.ltb_spec f (Z.of_nat (0 + 2 ^ m))); cbn; lia.
+Qed.
+
+(* ------------------------------------------------------------------ marginalisation *)
+Definition target (n : nat) (mw : list nat) (k : Z) : Z := index_of_bits (select mw (bits_of_index n k)).
+
+Lemma select_length ws row : length (select ws row) = length ws.
+Proof. unfold select. apply map_length. Qed.
+
+Lemma target_range n mw k : 0 <= target n mw k < 2 ^ Z.of_nat (length mw).
+Proof. unfold target. rewrite <- (select_length mw (bits_of_index n k)). apply index_range. Qed.
+
+Lemma marg_test n mw k j : 0 <= j < 2 ^ Z.of_nat (length mw) ->
+  eq_lb (select mw (bits_of_index n k)) (bits_of_index (length mw) j) = (j =? target n mw k).
+Proof. intros H. apply bits_eq_iff; [apply select_length | exact H]. Qed.
+
+Lemma snd_combine {A B} (a : list A) : forall (b : list B), (length b <= length a)%nat -> map snd (combine a b) = b.
+Proof.
+  induction a as [|x a IH]; intros [|y b] H; cbn in *; try reflexivity; [lia|]. f_equal. apply IH. lia.
+Qed.
+
+Lemma sum_swap (L : list (Z * Z)) (J : list Z) (T : Z * Z -> Z -> bool) :
+  (forall kw, In kw L -> sumZ (map (fun j => if T kw j then 1 else 0) J) = 1) ->
+  sumZ (map (fun j => sumZ (map (fun kw => if T kw j then snd kw else 0) L)) J) = sumZ (map snd L).
+Proof.
+  induction L as [|kw L IH]; intros H.
+  - cbn. apply sumZ_map_zero.
+  - cbn [map sumZ fold_right].
+    change (sumZ (map (fun j => (if T kw j then snd kw else 0) + sumZ (map (fun kw0 => if T kw0 j then snd kw0 else 0) L)) J)
+            = snd kw + sumZ (map snd L)).
+    rewrite (sumZ_map_add (fun j => if T kw j then snd kw else 0)).
+    rewrite IH by (intros; apply H; right; assumption).
+    rewrite (sumZ_map_scale (T kw)), H by (left; reflexivity). lia.
+Qed.
+
+Lemma marginal_total n mw w : length w = (2 ^ n)%nat -> sumZ (marginal n mw w) = sumZ w.
+Proof.
+  intros Lw. unfold marginal, marg_entry.
+  rewrite (sum_swap (combine (basis_states n) w) (basis_states (length mw))
+             (fun kw j => eq_lb (select mw (bits_of_index n (fst kw))) (bits_of_index (length mw) j))).
+  - rewrite snd_combine; [reflexivity | rewrite basis_states_length; lia].
+  - intros kw _. rewrite (map_ext_in _ (fun j => if j =? target n mw (fst kw) then 1 else 0)).
+    + apply indicator_basis, target_range.
+    + intros j Hj. apply basis_states_in in Hj. now rewrite marg_test.
+Qed.
+
+Lemma sum_if_filter {A} (P : A -> bool) (g : A -> Z) l :
+  sumZ (map (fun x => if P x then g x else 0) l) = sumZ (map g (filter P l)).
+Proof. unfold sumZ. induction l as [|x l IH]; [reflexivity|]. cbn. destruct (P x); cbn; rewrite IH; lia. Qed.
+
+Lemma nth_map_seq {B} (f : nat -> B) d : forall N s i, (i < N)%nat -> nth i (map f (seq s N)) d = f (s + i)%nat.
+Proof.
+  induction N as [|N IH]; intros s i H; [lia|]. destruct i; cbn [seq map nth]; [f_equal; lia|].
+  rewrite IH by lia. f_equal. lia.
+Qed.
+
+(* entry j of the marginal = total weight of the basis states whose measured wires spell j
+   (the unmeasured bits are summed out) *)
+Lemma marginal_entry n mw w j : 0 <= j < 2 ^ Z.of_nat (length mw) ->
+  nth (Z.to_nat j) (marginal n mw w) 0 =
+  sumZ (map snd (filter (fun kw => target n mw (fst kw) =? j) (combine (basis_states n) w))).
+Proof.
+  intros H. unfold marginal.
+  assert (E : nth (Z.to_nat j) (map (marg_entry n mw w) (basis_states (length mw))) 0 = marg_entry n mw w j).
+  { unfold basis_states. rewrite map_map. rewrite <- (pow2_nat (length mw)) in H.
+    rewrite nth_map_seq by lia. f_equal. lia. }
+  rewrite E. unfold marg_entry. rewrite <- sum_if_filter. f_equal. apply map_ext. intros kw.
+  rewrite marg_test by exact H. now rewrite Z.eqb_sym.
+Qed.
+
+Lemma marginal_length n mw w : length (marginal n mw w) = (2 ^ length mw)%nat.
+Proof. unfold marginal. now rewrite map_length, basis_states_length. Qed.
+
+Lemma marg_entry_nonneg n mw w j : Forall (fun x => 0 <= x) w -> 0 <= marg_entry n mw w j.
+Proof.
+  intros H. unfold marg_entry. apply sumZ_nonneg. apply Forall_forall. intros x Hx.
+  apply in_map_iff in Hx as (kw & <- & Hkw). destruct (eq_lb _ _); [|lia].
+  destruct kw as [k x]. apply in_combine_r in Hkw. rewrite Forall_forall in H. now apply H.
+Qed.
+
+Lemma marginal_nonneg n mw w : Forall (fun x => 0 <= x) w -> Forall (fun x => 0 <= x) (marginal n mw w).
+Proof.
+  intros H. unfold marginal. apply Forall_forall. intros x Hx. apply in_map_iff in Hx as (j & <- & _).
+  now apply marg_entry_nonneg.
+Qed.
+
+(* ------------------------------------------------------------------ choice as inverse CDF *)
+Definition psum (w : list Z) (k : nat) : Z := sumZ (firstn k w).
+
+Lemma psum_S w : forall k, psum w (S k) = psum w k + nth k w 0.
+Proof.
+  unfold psum, sumZ. induction w as [|x w IH]; intros k.
+  - destruct k; reflexivity.
+  - destruct k as [|k]; [cbn; lia|].
+    change (firstn (S (S k)) (x :: w)) with (x :: firstn (S k) w).
+    change (firstn (S k) (x :: w)) with (x :: firstn k w).
+    change (nth (S k) (x :: w) 0) with (nth k w 0).
+    cbn [fold_right]. rewrite IH. lia.
+Qed.
+
+Lemma psum_cons x w k : psum (x :: w) (S k) = x + psum w k.
+Proof. reflexivity. Qed.
+
+Lemma psum_0 w : psum w 0 = 0.
+Proof. reflexivity. Qed.
+
+Lemma psum_nonneg w k : Forall (fun x => 0 <= x) w -> 0 <= psum w k.
+Proof. intros H. apply sumZ_nonneg. revert k. induction H; intros [|k]; cbn; constructor; auto. Qed.
+
+Lemma psum_all w : psum w (length w) = sumZ w.
+Proof. unfold psum. now rewrite firstn_all. Qed.
+
+Section Choice.
+  Variable u : Q.
+  Variable W : Z.
+  (* c/W <= u, cross-multiplied *)
+  Definition le_uW (c : Z) : Prop := c * Z.pos (Qden u) <= Qnum u * W.
+
+  Lemma qle_iff c : Qle_bool (inject_Z c) (u * inject_Z W) = true <-> le_uW c.
+  Proof.
+    rewrite Qle_bool_iff. unfold Qle, Qmult, inject_Z, le_uW. cbn [Qnum Qden].
+    rewrite Pos.mul_1_r, Z.mul_1_r. reflexivity.
+  Qed.
+
+  Lemma le_uW_mono c c' : c <= c' -> le_uW c' -> le_uW c.
+  Proof. unfold le_uW. intros. pose proof (Pos2Z.is_pos (Qden u)). nia. Qed.
+
+  Lemma search_nonneg cum : 0 <= search_right u W cum.
+  Proof. induction cum as [|c r IH]; cbn [search_right]; [lia|]. destruct (Qle_bool _ _); lia. Qed.
+
+  Lemma search_spec : forall w acc k, Forall (fun x => 0 <= x) w -> (k < length w)%nat -> le_uW acc ->
+    (search_right u W (cumsum_from acc w) = Z.of_nat k <->
+     le_uW (acc + psum w k) /\ ~ le_uW (acc + psum w (S k))).
+  Proof.
+    induction w as [|x w IH]; intros acc k Hw Hk Hacc; [cbn in Hk; lia|].
+    inversion Hw as [|? ? Hx Hw']; subst. cbn [cumsum_from search_right].
+    pose proof (search_nonneg (cumsum_from (acc + x) w)) as NN.
+    destruct (Qle_bool (inject_Z (acc + x)) (u * inject_Z W)) eqn:E.
+    - apply qle_iff in E. destruct k as [|k].
+      + split; [intros H; lia|]. intros [_ H]. exfalso. apply H.
+        rewrite psum_cons, psum_0, Z.add_0_r. exact E.
+      + cbn [length] in Hk. specialize (IH (acc + x) k Hw' ltac:(lia) E).
+        rewrite !psum_cons, !Z.add_assoc, <- IH. lia.
+    - assert (N : ~ le_uW (acc + x)) by (intros H; apply qle_iff in H; congruence).
+      destruct k as [|k].
+      + split; [|reflexivity]. intros _. rewrite psum_cons, !psum_0, !Z.add_0_r. split; assumption.
+      + split; [intros H; lia|]. intros [H _]. exfalso. apply N.
+        apply (le_uW_mono _ (acc + psum (x :: w) (S k))); [|assumption].
+        rewrite psum_cons. pose proof (psum_nonneg w k Hw'). lia.
+  Qed.
+
+  Lemma search_lt : forall w acc, le_uW acc -> ~ le_uW (acc + sumZ w) ->
+    0 <= search_right u W (cumsum_from acc w) < Z.of_nat (length w).
+  Proof.
+    induction w as [|x w IH]; intros acc Ha Hn.
+    - exfalso. apply Hn. cbn. now rewrite Z.add_0_r.
+    - cbn [cumsum_from search_right length]. destruct (Qle_bool _ _) eqn:E; [|lia].
+      apply qle_iff in E. specialize (IH (acc + x) E). cbn [sumZ fold_right] in Hn. fold (sumZ w) in Hn.
+      rewrite Z.add_assoc in Hn. specialize (IH Hn). lia.
+  Qed.
+End Choice.
+
+Definition nonneg (w : list Z) : Prop := Forall (fun x => 0 <= x) w.
+Definition unit_interval (u : Q) : Prop := (0 <= u)%Q /\ (u < 1)%Q.
+
+(* cdf_k = (w_0 + ... + w_(k-1)) / W as a rational;  prob_k = w_k / W *)
+Definition cdf (w : list Z) (k : nat) : Q := Qmake (psum w k) (Z.to_pos (sumZ w)).
+Definition prob (w : list Z) (k : nat) : Q := Qmake (nth k w 0) (Z.to_pos (sumZ w)).
+
+Lemma le_uW_cdf u w k : 0 < sumZ w -> (le_uW u (sumZ w) (psum w k) <-> (cdf w k <= u)%Q).
+Proof. intros H. unfold le_uW, cdf, Qle. cbn [Qnum Qden]. rewrite Z2Pos.id by assumption. reflexivity. Qed.
+
+Lemma le_uW_zero u W : (0 <= u)%Q -> 0 <= W -> le_uW u W 0.
+Proof. unfold Qle, le_uW. cbn. intros. nia. Qed.
+
+Lemma not_le_uW_total u W : (u < 1)%Q -> 0 < W -> ~ le_uW u W (0 + W).
+Proof. unfold Qlt, le_uW. cbn. intros. pose proof (Pos2Z.is_pos (Qden u)). nia. Qed.
+
+(* outcome k  iff  cdf(k) <= u < cdf(k+1)   (cdf(0) = 0) *)
+Lemma choice_interval_lemma w u k : nonneg w -> 0 < sumZ w -> (0 <= u)%Q -> (k < length w)%nat ->
+  (choice_idx w u = Z.of_nat k <-> (cdf w k <= u)%Q /\ (u < cdf w (S k))%Q).
+Proof.
+  intros Hw HW Hu Hk. unfold choice_idx.
+  rewrite (search_spec u (sumZ w) w 0 k Hw Hk (le_uW_zero u (sumZ w) Hu (Z.lt_le_incl _ _ HW))).
+  rewrite !Z.add_0_l, !le_uW_cdf by assumption.
+  split; intros [A B]; (split; [assumption|]).
+  - now apply Qnot_le_lt.
+  - now apply Qlt_not_le.
+Qed.
+
+(* the preimage interval of k has length p_k *)
+Lemma interval_length_lemma w k : (cdf w (S k) - cdf w k == prob w k)%Q.
+Proof.
+  unfold cdf, prob, Qeq, Qminus, Qplus, Qopp. cbn [Qnum Qden]. rewrite psum_S, Pos2Z.inj_mul. ring.
+Qed.
+
+Lemma choice_total_lemma w u : nonneg w -> 0 < sumZ w -> unit_interval u ->
+  exists k, (k < length w)%nat /\ choice_idx w u = Z.of_nat k.
+Proof.
+  intros Hw HW [Hu0 Hu1]. unfold choice_idx.
+  pose proof (search_lt u (sumZ w) w 0 (le_uW_zero u (sumZ w) Hu0 (Z.lt_le_incl _ _ HW)) (not_le_uW_total u _ Hu1 HW)) as R.
+  exists (Z.to_nat (search_right u (sumZ w) (cumsum_from 0 w))). split; lia.
+Qed.
+
+Lemma choice_unique_lemma w u : nonneg w -> 0 < sumZ w -> unit_interval u ->
+  exists! k, (k < length w)%nat /\ (cdf w k <= u)%Q /\ (u < cdf w (S k))%Q.
+Proof.
+  intros Hw HW Hu. destruct (choice_total_lemma w u Hw HW Hu) as (k & Hk & E).
+  exists k. split.
+  - split; [assumption|]. now apply (choice_interval_lemma w u k Hw HW (proj1 Hu) Hk).
+  - intros k' (Hk' & I). apply (choice_interval_lemma w u k' Hw HW (proj1 Hu) Hk') in I. lia.
+Qed.
+
+(* a zero-probability outcome is never selected *)
+Lemma choice_positive_lemma w u k : nonneg w -> 0 < sumZ w -> (0 <= u)%Q -> (k < length w)%nat ->
+  choice_idx w u = Z.of_nat k -> 0 < nth k w 0.
+Proof.
+  intros Hw HW Hu Hk E. apply (choice_interval_lemma w u k Hw HW Hu Hk) in E as [A B].
+  pose proof (Qle_lt_trans _ _ _ A B) as C. unfold cdf, Qlt in C. cbn [Qnum Qden] in C.
+  rewrite psum_S in C. pose proof (Pos2Z.is_pos (Z.to_pos (sumZ w))). nia.
+Qed.
+
+(* ------------------------------------------------------------------ counts *)
+Lemma count_eq_cons k v vals : count_eq k (v :: vals) = (if k =? v then 1 else 0) + count_eq k vals.
+Proof. unfold count_eq, lenZ. cbn [filter]. destruct (k =? v); cbn [length]; lia. Qed.
+
+Lemma count_eq_nonneg k vals : 0 <= count_eq k vals.
+Proof. unfold count_eq, lenZ. lia. Qed.
+
+Lemma indicator_nodup v keys : NoDup keys ->
+  sumZ (map (fun k => if k =? v then 1 else 0) keys) = if existsb (Z.eqb v) keys then 1 else 0.
+Proof.
+  induction 1 as [|x keys Hx ND IH]; [reflexivity|]. cbn [map sumZ fold_right existsb].
+  fold (sumZ (map (fun k => if k =? v then 1 else 0) keys)). rewrite IH.
+  destruct (Z.eqb_spec x v) as [->|N].
+  - rewrite Z.eqb_refl. cbn. destruct (existsb (Z.eqb v) keys) eqn:E; [|lia].
+    apply existsb_exists in E as (y & Hy & E). apply Z.eqb_eq in E. subst. contradiction.
+  - destruct (Z.eqb_spec v x); [congruence|]. cbn. lia.
+Qed.
+
+Lemma counts_sum keys vals : NoDup keys -> Forall (fun v => In v keys) vals ->
+  sumZ (map (fun k => count_eq k vals) keys) = lenZ vals.
+Proof.
+  intros ND. induction 1 as [|v vals Hv _ IH]; [unfold count_eq; cbn; apply sumZ_map_zero|].
+  rewrite (map_ext _ (fun k => (if k =? v then 1 else 0) + count_eq k vals)) by (intros; apply count_eq_cons).
+  rewrite (sumZ_map_add (fun k => if k =? v then 1 else 0)), IH, indicator_nodup by assumption.
+  assert (E : existsb (Z.eqb v) keys = true) by (apply existsb_exists; exists v; split; [assumption | apply Z.eqb_refl]).
+  rewrite E. unfold lenZ. cbn [length]. lia.
+Qed.
+
+Lemma filter_keeps_sum all l : Forall (fun kc : Z * Z => 0 <= snd kc) l ->
+  sumZ (map snd (filter (fun kc => all || (0 <? snd kc)) l)) = sumZ (map snd l).
+Proof.
+  induction 1 as [|kc l H _ IH]; [reflexivity|]. cbn [filter].
+  destruct (all || (0 <? snd kc)) eqn:E; cbn [map sumZ fold_right]; fold (sumZ (map snd l)).
+  - fold (sumZ (map snd (filter (fun kc => all || (0 <? snd kc)) l))). lia.
+  - apply orb_false_elim in E as [_ E]. apply Z.ltb_ge in E. lia.
+Qed.
+
+Lemma counts_over_total keys all vals : NoDup keys -> Forall (fun v => In v keys) vals ->
+  sumZ (map snd (counts_over keys all vals)) = lenZ vals.
+Proof.
+  intros ND Hv. unfold counts_over. rewrite filter_keeps_sum.
+  - rewrite map_map. cbn [snd]. now apply counts_sum.
+  - apply Forall_forall. intros kc H. apply in_map_iff in H as (k & <- & _). apply count_eq_nonneg.
+Qed.
+
+Lemma basis_states_nodup m : NoDup (basis_states m).
+Proof.
+  unfold basis_states. apply Injective_map_NoDup; [|apply seq_NoDup].
+  intros a b. apply Nat2Z.inj.
+Qed.
+
+Definition cols (n : nat) (ws : list nat) : nat := match ws with [] => n | _ => length ws end.
+
+Lemma sel_rows_length n ws rows : Forall (fun r => length r = n) rows ->
+  Forall (fun r => length r = cols n ws) (sel_rows ws rows).
+Proof.
+  intros H. destruct ws as [|a ws]; [exact H|]. unfold sel_rows, cols.
+  apply Forall_forall. intros r Hr. apply in_map_iff in Hr as (r0 & <- & _). apply select_length.
+Qed.
+
+Lemma sel_rows_count ws rows : length (sel_rows ws rows) = length rows.
+Proof. destruct ws; [reflexivity | apply map_length]. Qed.
+
+Lemma counts_total_lemma n ws all rows l : Forall (fun r => length r = n) rows ->
+  process n (MCounts ws all) rows = RCounts l -> sumZ (map snd l) = lenZ rows.
+Proof.
+  intros H E. cbn [process] in E. injection E as <-. fold (cols n ws).
+  rewrite counts_over_total.
+  - unfold lenZ. now rewrite map_length, sel_rows_count.
+  - apply basis_states_nodup.
+  - apply Forall_forall. intros v Hv. apply in_map_iff in Hv as (r & <- & Hr).
+    apply basis_states_in. pose proof (sel_rows_length n ws rows H) as F. rewrite Forall_forall in F.
+    rewrite <- (F r Hr). apply index_range.
+Qed.
+
+(* ------------------------------------------------------------------ eigenvalue samples *)
+Lemma eig_valid_lemma eigs bs : length eigs = (2 ^ length bs)%nat -> In (eig_of eigs bs) eigs.
+Proof.
+  intros L. unfold eig_of. destruct (eq_lz eigs [1; -1]) eqn:E.
+  - apply eq_lz_eq in E. subst eigs. destruct (hd false bs); cbn; auto.
+  - apply nth_In. pose proof (index_range bs) as R. rewrite <- (pow2_nat (length bs)) in R. lia.
+Qed.
+
+Lemma eig_samples_valid_lemma n ws eigs rows l : Forall (fun r => length r = n) rows ->
+  length eigs = (2 ^ cols n ws)%nat ->
+  process n (MSampleObs ws eigs) rows = REig l -> Forall (fun v => In v eigs) l /\ length l = length rows.
+Proof.
+  intros H L E. cbn [process] in E. injection E as <-. split.
+  - apply Forall_forall. intros v Hv. apply in_map_iff in Hv as (r & <- & Hr).
+    pose proof (sel_rows_length n ws rows H) as F. rewrite Forall_forall in F.
+    apply eig_valid_lemma. now rewrite (F r Hr).
+  - now rewrite map_length, sel_rows_count.
+Qed.
+
+(* counts of an observable: keys are the distinct eigenvalues *)
+Fixpoint strict_sorted (l : list Z) : Prop :=
+  match l with a :: ((b :: _) as r) => a < b /\ strict_sorted r | _ => True end.
+
+Lemma insert_u_in x l y : In y (insert_u x l) <-> y = x \/ In y l.
+Proof.
+  induction l as [|a l IH]; cbn [insert_u]; [cbn; intuition|].
+  destruct (Z.ltb_spec x a); [cbn; intuition|]. destruct (Z.eqb_spec x a) as [->|]; [cbn; intuition|].
+  cbn [In]. rewrite IH. intuition.
+Qed.
+
+Lemma insert_u_sorted x l : strict_sorted l -> strict_sorted (insert_u x l).
+Proof.
+  induction l as [|a l IH]; intros S; [exact I|]. cbn [insert_u].
+  destruct (Z.ltb_spec x a); [cbn; auto|]. destruct (Z.eqb_spec x a); [assumption|].
+  assert (S' : strict_sorted l) by (destruct l; [exact I | apply S]).
+  specialize (IH S'). destruct l as [|b l]; [cbn; split; [lia | exact I]|].
+  cbn [insert_u] in *. destruct S as [Hab _].
+  destruct (Z.ltb_spec x b); [cbn; repeat split; try lia; apply IH|].
+  destruct (Z.eqb_spec x b); [cbn; split; [lia | apply IH]|]. cbn. split; [lia | exact IH].
+Qed.
+
+Lemma sorted_tail a l : strict_sorted (a :: l) -> strict_sorted l.
+Proof. destruct l; [intros; exact I | intros [_ H]; exact H]. Qed.
+
+Lemma sorted_head_lt : forall l a y, strict_sorted (a :: l) -> In y l -> a < y.
+Proof.
+  induction l as [|b l IH]; intros a y S Hy; [contradiction|].
+  destruct S as [Hab S]. destruct Hy as [->|Hy]; [exact Hab|]. pose proof (IH b y S Hy). lia.
+Qed.
+
+Lemma strict_sorted_nodup l : strict_sorted l -> NoDup l.
+Proof.
+  induction l as [|a l IH]; intros S; [constructor|].
+  constructor; [|apply IH; eapply sorted_tail; eassumption].
+  intros Hin. pose proof (sorted_head_lt l a a S Hin). lia.
+Qed.
+
+Lemma sort_dedupe_in l y : In y (sort_dedupe l) <-> In y l.
+Proof. induction l as [|x l IH]; [reflexivity|]. cbn [sort_dedupe fold_right]. fold (sort_dedupe l). rewrite insert_u_in, IH. cbn. intuition. Qed.
+
+Lemma sort_dedupe_sorted l : strict_sorted (sort_dedupe l).
+Proof. induction l as [|x l IH]; [exact I|]. cbn [sort_dedupe fold_right]. fold (sort_dedupe l). now apply insert_u_sorted. Qed.
+
+Lemma counts_obs_total_lemma n ws eigs all rows l : Forall (fun r => length r = n) rows ->
+  length eigs = (2 ^ cols n ws)%nat ->
+  process n (MCountsObs ws eigs all) rows = RCounts l ->
+  sumZ (map snd l) = lenZ rows /\ Forall (fun kc => In (fst kc) eigs) l.
+Proof.
+  intros H L E. cbn [process] in E. injection E as <-. split.
+  - rewrite counts_over_total.
+    + unfold lenZ. now rewrite map_length, sel_rows_count.
+    + apply strict_sorted_nodup, sort_dedupe_sorted.
+    + apply Forall_forall. intros v Hv. apply in_map_iff in Hv as (r & <- & Hr). apply sort_dedupe_in.
+      pose proof (sel_rows_length n ws rows H) as F. rewrite Forall_forall in F.
+      apply eig_valid_lemma. now rewrite (F r Hr).
+  - unfold counts_over. apply Forall_forall. intros kc Hkc. apply filter_In in Hkc as [Hkc _].
+    apply in_map_iff in Hkc as (k & <- & Hk). cbn [fst]. now apply sort_dedupe_in.
+Qed.
+
+(* ------------------------------------------------------------------ shot bins *)
+Lemma bins_same_as_C44 l : forall lb, bins_from lb l = Disc.ShotsModel.bins_from lb l.
+Proof. induction l as [|s l IH]; intros lb; cbn; [reflexivity | now rewrite IH]. Qed.
+
+Lemma firstn_add_skipn {A} : forall x y (l : list A), firstn (x + y) l = firstn x l ++ firstn y (skipn x l).
+Proof.
+  induction x as [|x IH]; intros y l; [reflexivity|]. destruct l as [|a l]; cbn.
+  - now rewrite firstn_nil.
+  - now rewrite IH.
+Qed.
+
+Lemma skipn_add {A} : forall x y (l : list A), skipn (x + y) l = skipn y (skipn x l).
+Proof. induction x as [|x IH]; intros y l; [reflexivity|]. destruct l as [|a l]; cbn; [now rewrite skipn_nil | apply IH]. Qed.
+
+Lemma slice_app {A} (rows : list A) a b c : 0 <= a <= b -> b <= c ->
+  slice rows (a, b) ++ slice rows (b, c) = slice rows (a, c).
+Proof.
+  intros H1 H2. unfold slice. cbn [fst snd].
+  replace (Z.to_nat (c - a)) with (Z.to_nat (b - a) + Z.to_nat (c - b))%nat by lia.
+  rewrite firstn_add_skipn. f_equal. f_equal. rewrite <- skipn_add. f_equal. lia.
+Qed.
+
+Lemma bins_concat {A} (rows : list A) : forall sv lb, nonneg sv -> 0 <= lb ->
+  concat (map (slice rows) (bins_from lb sv)) = slice rows (lb, lb + sumZ sv).
+Proof.
+  induction sv as [|s sv IH]; intros lb H Hlb.
+  - cbn. unfold slice. cbn [fst snd]. now replace (lb + 0 - lb) with 0 by lia.
+  - inversion H; subst. cbn [bins_from map concat]. rewrite IH by (assumption || lia).
+    pose proof (sumZ_nonneg sv ltac:(assumption)).
+    rewrite slice_app by lia. cbn [sumZ fold_right]. fold (sumZ sv). f_equal. f_equal. lia.
+Qed.
+
+Lemma bins_sizes {A} (rows : list A) : forall sv lb, nonneg sv -> 0 <= lb -> lb + sumZ sv <= lenZ rows ->
+  map (fun b => lenZ (slice rows b)) (bins_from lb sv) = sv.
+Proof.
+  induction sv as [|s sv IH]; intros lb H Hlb Hlen; [reflexivity|].
+  inversion H; subst. cbn [sumZ fold_right] in Hlen. fold (sumZ sv) in Hlen.
+  pose proof (sumZ_nonneg sv ltac:(assumption)).
+  cbn [bins_from map]. rewrite IH by (assumption || lia). f_equal.
+  unfold slice, lenZ in *. cbn [fst snd]. rewrite firstn_length, skipn_length. lia.
+Qed.
+
+Lemma bins_partition_lemma {A} (rows : list A) sv : nonneg sv -> lenZ rows = sumZ sv ->
+  concat (map (slice rows) (bins_from 0 sv)) = rows /\
+  map (fun b => lenZ (slice rows b)) (bins_from 0 sv) = sv /\
+  length (bins_from 0 sv) = length sv.
+Proof.
+  intros H L. split; [|split].
+  - rewrite bins_concat by (assumption || lia). unfold slice. cbn [fst snd skipn].
+    rewrite Z.add_0_l, Z.sub_0_r, <- L. unfold lenZ. rewrite Nat2Z.id. apply firstn_all.
+  - apply bins_sizes; (assumption || lia).
+  - clear. generalize 0. induction sv; intros; cbn; [reflexivity | now rewrite IHsv].
+Qed.
+
+(* ------------------------------------------------------------------ end to end: sample_state *)
+Lemma map_opt_some {A B} (f : A -> option B) : forall l r, map_opt f l = Some r ->
+  length r = length l /\ forall y, In y r -> exists x, In x l /\ f x = Some y.
+Proof.
+  induction l as [|x l IH]; intros r H; cbn in H.
+  - injection H as <-. split; [reflexivity | intros y []].
+  - destruct (f x) eqn:E; [|discriminate]. destruct (map_opt f l) eqn:E2; [|discriminate].
+    injection H as <-. destruct (IH _ eq_refl) as [IL IH']. split; [cbn; now rewrite IL|].
+    intros y [<-|Hy]; [exists x; split; [left; reflexivity | assumption]|].
+    destruct (IH' y Hy) as (x0 & ? & ?). exists x0. split; [right; assumption | assumption].
+Qed.
+
+Lemma in_firstn {A} (x : A) : forall n l, In x (firstn n l) -> In x l.
+Proof.
+  induction n as [|n IH]; intros l H; [contradiction|]. destruct l as [|a l]; [contradiction|].
+  destruct H as [->|H]; [left; reflexivity | right; now apply IH].
+Qed.
+
+Lemma nth_error_basis m i k : nth_error (basis_states m) i = Some k -> k = Z.of_nat i /\ (i < 2 ^ m)%nat.
+Proof.
+  intros H. assert (Hi : (i < 2 ^ m)%nat).
+  { rewrite <- basis_states_length. apply nth_error_Some. congruence. }
+  split; [|assumption]. unfold basis_states in H. rewrite nth_error_map in H.
+  rewrite (nth_error_nth' _ 0%nat) in H by (rewrite seq_length; assumption).
+  rewrite seq_nth in H by assumption. cbn in H. congruence.
+Qed.
+
+Lemma sample_probs_valid_lemma be D p shots m us rows rest :
+  0 <= shots -> 0 < sumZ p -> Forall unit_interval us ->
+  sample_probs be D p shots m us = Ok (rows, rest) ->
+  lenZ rows = shots /\ rest = skipn (Z.to_nat shots) us /\
+  Forall (fun row => length row = m /\ 0 < nth (Z.to_nat (index_of_bits row)) p 0) rows.
+Proof.
+  intros Hs HW Hu. unfold sample_probs.
+  destruct (match be with BNumpy => tol_bad D (sumZ p) | BJax => false end); [discriminate|].
+  destruct (forallb (fun x => 0 <=? x) p) eqn:Hp; [|discriminate]. cbn [negb].
+  destruct (length p =? 2 ^ m)%nat eqn:Hl; [|discriminate]. cbn [negb]. apply Nat.eqb_eq in Hl.
+  destruct (lenZ us <? shots) eqn:Hn; [discriminate|]. apply Z.ltb_ge in Hn.
+  destruct (map_opt _ _) as [ks|] eqn:E; [|discriminate]. intros H. injection H as <- <-.
+  apply map_opt_some in E as [EL EI].
+  assert (Hw : nonneg p).
+  { apply Forall_forall. intros x Hx. rewrite forallb_forall in Hp. specialize (Hp x Hx). lia. }
+  split; [|split; [reflexivity|]].
+  - unfold lenZ in *. rewrite map_length, EL, firstn_length. lia.
+  - apply Forall_forall. intros row Hrow. apply in_map_iff in Hrow as (k & <- & Hk).
+    split; [apply bits_length|].
+    destruct (EI k Hk) as (u & Hu_in & Hc). unfold choice_one in Hc.
+    apply nth_error_basis in Hc as [Hk1 Hk2].
+    assert (UI : unit_interval u).
+    { rewrite Forall_forall in Hu. apply Hu. eapply in_firstn; eassumption. }
+    destruct (choice_total_lemma p u Hw HW UI) as (i & Hi & Ei).
+    rewrite Ei, Nat2Z.id in Hk1, Hk2. subst k.
+    rewrite index_of_bits_of_index by (rewrite <- (pow2_nat m); lia).
+    rewrite Nat2Z.id. apply (choice_positive_lemma p u i Hw HW (proj1 UI) Hi Ei).
+Qed.
+
+Definition wires_or_all (n : nat) (wires : list nat) : list nat := match wires with [] => seq 0 n | _ => wires end.
+
+Lemma sample_state_valid_lemma be n D w wires shots us rows rest :
+  0 <= shots -> 0 < sumZ w -> Forall unit_interval us ->
+  sample_state be n D w wires shots us = Ok (rows, rest) ->
+  lenZ rows = shots /\
+  Forall (fun row => length row = length (wires_or_all n wires) /\
+                     0 < nth (Z.to_nat (index_of_bits row)) (marginal n (wires_or_all n wires) w) 0) rows.
+Proof.
+  intros Hs HW Hu. unfold sample_state. fold (wires_or_all n wires).
+  destruct (length w =? 2 ^ n)%nat eqn:Hl; [|discriminate]. cbn [negb]. apply Nat.eqb_eq in Hl.
+  destruct (forallb _ _ && all_distinct _); [|discriminate]. cbn [negb]. intros H.
+  apply sample_probs_valid_lemma in H; [| assumption | now rewrite marginal_total | assumption].
+  destruct H as (A & _ & B). split; assumption.
+Qed.
+
+(* one measurement group: the sample array has sum(sv) rows of n bits and is cut at C44's bins *)
+Lemma measure_structure_lemma be n D w sv mps us part bins :
+  nonneg sv -> 0 < sumZ w -> Forall unit_interval us ->
+  measure be n D w sv mps us = Ok (part, bins) ->
+  part = (1 <? lenZ sv) /\
+  exists rows, lenZ rows = sumZ sv /\ Forall (fun r => length r = n) rows /\
+               bins = map (fun b => map (fun m => process n m (slice rows b)) mps) (bins_from 0 sv).
+Proof.
+  intros Hsv HW Hu. unfold measure.
+  destruct (sample_state be n D w [] (sumZ sv) us) as [[rows rest]|] eqn:E; [|discriminate].
+  intros H. injection H as <- <-. split; [reflexivity|]. exists rows.
+  apply sample_state_valid_lemma in E; [| now apply sumZ_nonneg | assumption | assumption].
+  destruct E as [A B]. split; [assumption|]. split; [|reflexivity].
+  eapply Forall_impl; [|exact B]. cbn. intros r [Hr _]. now rewrite seq_length in Hr.
+Qed.
+
+Lemma slice_rows_length {A} (P : A -> Prop) rows b : Forall P rows -> Forall P (slice rows b).
+Proof.
+  intros H. apply Forall_forall. intros x Hx. unfold slice in Hx. apply in_firstn in Hx.
+  rewrite Forall_forall in H. apply H. clear - Hx. revert Hx. generalize (Z.to_nat (fst b)).
+  intros k. revert rows. induction k as [|k IH]; intros rows Hx; [exact Hx|].
+  destruct rows as [|a rows]; [contradiction|]. right. now apply IH.
+Qed.
+
+(* every counts dictionary of bin i totals the i-th entry of the shot vector *)
+Lemma measure_counts_lemma be n D w sv mps us part bins :
+  nonneg sv -> 0 < sumZ w -> Forall unit_interval us ->
+  measure be n D w sv mps us = Ok (part, bins) ->
+  length bins = length sv /\
+  forall i s bin j ws all l, nth_error sv i = Some s -> nth_error bins i = Some bin ->
+    nth_error mps j = Some (MCounts ws all) -> nth_error bin j = Some (RCounts l) ->
+    sumZ (map snd l) = s.
+Proof.
+  intros Hsv HW Hu H. apply measure_structure_lemma in H as (_ & rows & HL & HR & ->); try assumption.
+  destruct (bins_partition_lemma rows sv Hsv HL) as (_ & Sz & Len).
+  split; [now rewrite map_length|].
+  intros i s bin j ws all l Hs Hb Hm Hr.
+  rewrite nth_error_map in Hb. destruct (nth_error (bins_from 0 sv) i) as [b|] eqn:Eb; [|discriminate].
+  cbn in Hb. injection Hb as <-.
+  rewrite nth_error_map, Hm in Hr. cbn in Hr. injection Hr as Hr.
+  apply counts_total_lemma in Hr; [|now apply slice_rows_length].
+  rewrite Hr. assert (E : nth_error (map (fun b => lenZ (slice rows b)) (bins_from 0 sv)) i = Some (lenZ (slice rows b))).
+  { rewrite nth_error_map, Eb. reflexivity. }
+  rewrite Sz, Hs in E. congruence.
+Qed.
